@@ -80,7 +80,7 @@ TOKENS = [
     # identifiers: unknown name, typedef name, integer constant (both from the base FFI)
     "x", "T", "K",
     # numbers: zero, plain, bad octal, bare hex prefix, float, huge shift
-    "0", "5", "08", "0x", "1e3", "1<<70",
+    "0", "5", "08", "0x", "1e3", "1<<70", "0x1.8p3", "0b12",
     # literals
     "'a'", '"s"',
     # punctuation
@@ -96,7 +96,8 @@ BASE_CDEF = "typedef int T;\n#define K 3\nstruct s { int a; };\nenum e { E1 };\n
 
 TYPEOF_FRAMES = [("int [ %s ]", "typeof_array"), ("void ( %s )", "typeof_args")]
 CDEF_FRAMES = [("struct fs { %s };", "struct"), ("enum fe { %s };", "enum"),
-               ("#define FX %s\n", "define"), ("int fa[ %s ];", "array")]
+               ("#define FX %s\n", "define"), ("int fa[ %s ];", "array"),
+               ("%s", "bare"), ("int before(void); %s", "tail")]      # the sequence IS (the end of) the cdef
 
 FRAME_TOKENS_QUICK = ("int", "char", "x", "T", "K", "0", "5", "08", "0x", "1e3", "1<<70", "'a'", "-", "/", "%", "<<",
                       "...", "=", ",", ";", ":", "[", "]", "{", "}", "*", "(", ")")
